@@ -1,6 +1,7 @@
 mod area_builder;
 mod area_green;
 mod area_red;
+mod area_serde;
 mod area_text;
 mod reftree;
 mod area_intern;
